@@ -332,10 +332,14 @@ pub fn shadow_program(seed: u64) -> String {
     let mut decls: Vec<(Vec<&str>, String, bool)> = Vec::new();   // scope, name, is function
     let mut k = 0;
     let mut body = std::collections::BTreeMap::<Vec<&str>, String>::new();
+    let mut enums: Vec<Vec<&str>> = Vec::new();
     for sc in &scopes {
         let mut text = String::new();
         for f in FN { if rng.chance(1, 2) { k += 1; text += &format!("int {}() {{ return {}; }}\n", f, k); decls.push((sc.clone(), f.to_string(), true)); } }
         if rng.chance(1, 3) { k += 1; text += &format!("static const int v = {};\n", k); decls.push((sc.clone(), "v".into(), false)); }
+        // enums of one name in several namespaces; they are used through values that no enumerator has, which the
+        // exporters write as a cast of the number to the enum's path
+        if rng.chance(1, 2) { k += 1; text += &format!("enum E {{ P{} = {} }};\n", k, k); enums.push(sc.clone()); }
         body.insert(sc.clone(), text);
     }
     fn render(scopes: &[Vec<&str>], body: &std::collections::BTreeMap<Vec<&str>, String>, at: &[&str], out: &mut String) {
@@ -350,11 +354,12 @@ pub fn shadow_program(seed: u64) -> String {
     }
     let mut base = String::new();
     render(&scopes, &body, &[], &mut base);
-    if decls.is_empty() { return base; }
+    if decls.is_empty() && enums.is_empty() { return base; }
     let mut uses = String::new();
     let mut u = 0;
     for sc in &scopes {
         for _ in 0..4 {
+            if decls.is_empty() { break; }
             let (dsc, name, is_fn) = rng.pick(&decls).clone();
             let mut full: Vec<String> = dsc.iter().map(|x| x.to_string()).collect();
             full.push(name);
@@ -366,6 +371,23 @@ pub fn shadow_program(seed: u64) -> String {
             let mut block = String::new();
             for n in sc { block += &format!("namespace {} {{ ", n); }
             block += &format!("int use{}() {{ return {}; }}", u, expr);
+            for _ in sc { block += " }"; }
+            block += "\n";
+            let trial = format!("{}{}{}", base, uses, block);
+            if let Ok(Ok(_)) = catch(|| front_end(&trial)) { uses += &block; }
+        }
+        for _ in 0..2 {
+            if enums.is_empty() { break; }
+            let dsc = rng.pick(&enums).clone();
+            let mut full: Vec<String> = dsc.iter().map(|x| x.to_string()).collect();
+            full.push("E".into());
+            let take = rng.range(1, full.len() as u64) as usize;
+            let mut path = full[full.len() - take..].join("::");
+            if take == full.len() && rng.chance(1, 2) { path = format!("::{}", path); }
+            u += 1;
+            let mut block = String::new();
+            for n in sc { block += &format!("namespace {} {{ ", n); }
+            block += &format!("int use{}(int x) {{ switch (x) {{ case ({}){}: return 1; }} return 0; }}", u, path, 1000 + u);
             for _ in sc { block += " }"; }
             block += "\n";
             let trial = format!("{}{}{}", base, uses, block);
